@@ -196,7 +196,11 @@ def explore(run, max_paths=20000):
                 res = PathResult(ctx, 'cut', e.why)
             except PathInfeasible:
                 res = PathResult(ctx, 'infeasible', None)
-            except (OutOfSubset, KvcInternal):
+            except OutOfSubset as e:
+                # this path leaves the modelled subset: it is undecided, the obligations it recorded before that point stay
+                # (they are claims about the prefix), and the other paths are still explored
+                res = PathResult(ctx, 'oos', e)
+            except KvcInternal:
                 raise
             except EngineSignal as e:
                 raise KvcInternal(f'stray engine signal {e!r}')
